@@ -685,7 +685,8 @@ impl Check {
         st.labels = labels;
         st.samples = samples;
         let violation = violation.map(|(sig, case)| {
-            let path = self.write_replay(name, &case, &sig);
+            // "sub@engine": the replay file names the proptest sub whose oracle re-runs the case
+            let path = self.write_replay(name.split('@').next().unwrap_or(name), &case, &sig);
             println!("VIOLATION property={} replay={}", self.property, path.display());
             println!("  sub={} signature={}", name, truncate(&sig, 600));
             (sig, path)
